@@ -161,6 +161,10 @@ def check_episode(env, sink, sink2, lo, lo2, plan, idmap, kinds, quotes, trace, 
         if order != sorted(order):
             msgs.append("step %d: a pre-execution event was delivered after a post-execution one" % k)
     # ---- global ordering and stamps
+    unstamped = [e for e in log if not isinstance(e[2], datetime)]
+    if unstamped:
+        # a notification without a time (e.g. a new-date notice sent before any market event of the episode)
+        return msgs + ["%s notification delivered with time %r" % (unstamped[0][0], unstamped[0][2])]
     times = [e[2] for e in log]
     for a, b, ea, eb in zip(times, times[1:], log, log[1:]):
         if a > b:
